@@ -34,3 +34,24 @@ package tsm1
 //@   props C13 C01
 //@   loop 1 invariant iwf: 16 <= i && i <= len(b)
 //@   loop 1 decreases len(b) - i
+
+// ---- C13.3 zig-zag coding: mutual inverses on all 2^64 values (bit-vector arithmetic) ----
+
+//@ pure zz_enc(x) = ite(x >= 0, uint64(x) << 1, ^(uint64(x) << 1))
+//@ pure zz_dec(v) = ite(v & 1 == 0, int64(v >> 1), int64(^(v >> 1)))
+
+//@ func ZigZagEncode
+//@   props C13
+//@   arith bv
+//@   modifies nothing
+//@   ensures spec: result == zz_enc(x)
+
+//@ func ZigZagDecode
+//@   props C13
+//@   arith bv
+//@   modifies nothing
+//@   ensures spec: result == zz_dec(v)
+
+//@ lemma zigzag_dec_enc C13 bv: forall_i64(x, zz_dec(zz_enc(x)) == x)
+//@ lemma zigzag_enc_dec C13 bv: forall_u64(v, zz_enc(zz_dec(v)) == v)
+//@ lemma zigzag_small_is_small C13 bv: forall_i64(x, (x >= 0 && x < 1000) ==> zz_enc(x) < 2000)
